@@ -1,12 +1,87 @@
 import Tmcg.Driver
+import Tmcg.Model.Arith2
 /-
   Line-protocol handlers of area "arith2" (property C09, remaining parts: polynomial interpolation,
   prime generators, conversion between the big-number back ends, the big-integer wrapper).
-  Filled by the builder of that area.  Line formats: top of harness/drv_arith2.cc.
+  Line formats: top of harness/drv_arith2.cc.
 -/
 namespace Tmcg.DriverArith2
-open Tmcg Tmcg.Driver
+open Tmcg Tmcg.Driver Tmcg.Arith2
 
-def handlers : List (String × Handler) := []
+/-- arith2.interp [a…] [b…] q [fsize] => [f…] | false | throw:invalid_argument -/
+def hInterp : Handler := fun args => do
+  let (a, b, q, fs) ← match args with
+    | [a, b, q] => some (a, b, q, none)
+    | [a, b, q, fs] => some (a, b, q, some fs)
+    | _ => none
+  let a ← pIntList a; let b ← pIntList b; let q ← pInt q
+  let fs ← match fs with
+    | none => some a.length
+    | some t => pNat t
+  some (match interpolateE a b q fs with
+    | .error e => toString e
+    | .ok none => "false"
+    | .ok (some f) => showList f)
+
+def pBit (s : String) : Option Bool :=
+  if s = "1" then some true else if s = "0" then some false else none
+
+/-- arith2.primerel fn psize qsize kin p q k pp qp => 0|1 -/
+def hPrimeRel : Handler
+  | [fn, psize, qsize, kin, p, q, k, pp, qp] => do
+    let fn ← GenFn.ofString fn
+    let psize ← pNat psize; let qsize ← pNat qsize; let kin ← pInt kin
+    let p ← pInt p; let q ← pInt q; let k ← pInt k; let pp ← pBit pp; let qp ← pBit qp
+    some (showBool (primeRelOk fn p q k psize qsize kin pp qp))
+  | _ => none
+
+/-- arith2.mpi.roundtrip v => v' | false -/
+def hRoundtrip : Handler
+  | [v] => do
+    let v ← pInt v
+    some (match mpiRoundtrip v with | some w => toString w | none => "false")
+  | _ => none
+
+/-- arith2.bigint mode op a b c => … -/
+def hBigint : Handler
+  | [mode, op, a, b, c] => do
+    let mode ← pNat mode; let op ← Op.ofString op
+    let a ← pInt a; let b ← pInt b; let c ← pInt c
+    some (bigint mode op a b c).toString
+  | _ => none
+
+/-- arith2.bigint.text mode op arg => … -/
+def hBigintText : Handler
+  | [mode, op, arg] => do
+    let mode ← pNat mode
+    let sec := thisSecure mode
+    match op with
+    | "export" => do let v ← pInt arg; some (match exportText sec true v with | .ok s => hexOfString s | .error e => toString e)
+    | "export_ne" => do let v ← pInt arg; some (match exportText sec false v with | .ok s => hexOfString s | .error e => toString e)
+    | "import" => do let t ← unhexString arg; some (showE (importText sec 62 t))
+    | "set_str62" => do let t ← unhexString arg; some (showE (importText sec 62 t))
+    | "set_str16" => do let t ← unhexString arg; some (showE (importText sec 16 t))
+    | "set_str10" => do let t ← unhexString arg; some (showE (importText sec 10 t))
+    | _ => none
+  | _ => none
+
+def pSeqOps (s : String) : Option (List (String × Int)) := do
+  let l ← pList s
+  l.mapM fun e => match e.splitOn ":" with
+    | [op, v] => do let v ← pInt v; some (op, v)
+    | _ => none
+
+/-- arith2.bigint.seq mode a0 [op:arg,…] => final eq0 lt0 -/
+def hBigintSeq : Handler
+  | [mode, a0, ops] => do
+    let mode ← pNat mode; let a0 ← pInt a0; let ops ← pSeqOps ops
+    let r := bigintSeq mode a0 ops
+    some s!"{r} {showBool (decide (r = 0))} {showBool (decide (r < 0))}"
+  | _ => none
+
+def handlers : List (String × Handler) := [
+  ("arith2.interp", hInterp), ("arith2.primerel", hPrimeRel), ("arith2.mpi.roundtrip", hRoundtrip),
+  ("arith2.bigint", hBigint), ("arith2.bigint.text", hBigintText), ("arith2.bigint.seq", hBigintSeq)
+]
 
 end Tmcg.DriverArith2
